@@ -64,6 +64,11 @@ func genPersistWorkload(r *rand.Rand, o persistOpts) []persistStep {
 			steps = append(steps, persistStep{Step: Step{Kind: "select", Db: pick(r, dbs), Tick: t}})
 			continue
 		}
+		if o.mode == "snap" && r.Intn(4) == 0 {
+			steps = append(steps, persistStep{Step: Step{Tick: t}, Special: "save"})
+			nrw++
+			continue
+		}
 		if o.mode == "rewrite" && nrw < 2 && r.Intn(4) == 0 {
 			ps := persistStep{Step: Step{Tick: t}, Special: "rewrite"}
 			if o.inter && r.Intn(2) == 0 {
@@ -78,6 +83,9 @@ func genPersistWorkload(r *rand.Rand, o persistOpts) []persistStep {
 			continue
 		}
 		steps = append(steps, persistStep{Step: Step{Cmd: genPersistWrite(r, o, now), Tick: t}})
+	}
+	if o.mode == "snap" && nrw == 0 {
+		steps = append(steps, persistStep{Special: "save"})
 	}
 	if o.mode == "rewrite" && nrw == 0 {
 		steps = append(steps, persistStep{Special: "rewrite"})
